@@ -1,5 +1,6 @@
 import CG.Proofs.C16
 import CG.Proofs.C16Closed
+import CG.Proofs.C16Idem
 
 #print axioms CG.TS.tsGraphEqShallow_eq_graphEq
 #print axioms CG.TS.tsEq_iff_structural
@@ -26,3 +27,13 @@ import CG.Proofs.C16Closed
 
 #print axioms CG.C16.extendSpec
 #print axioms CG.C15.extend_eq_unroll
+#print axioms CG.C16.stationary_meta
+#print axioms CG.C16.stationary_edge_uniform
+#print axioms CG.C16.stationary_keeps_minimal
+#print axioms CG.C16.stationary_nodeConsistent
+#print axioms CG.C16.stationary_varConsistent
+#print axioms CG.C16.stationary_idem_attrs
+#print axioms CG.C16.stationary_idem_state
+#print axioms CG.C16.stationary_idem_full
+#print axioms CG.C16.stationary_idem_twice
+#print axioms CG.C16.stationary_idem_statement_false
